@@ -255,6 +255,20 @@ def sessStep (s : S) (f : List String) : S × List String :=
       let (s, res) := callDone s tag r
       done s res
     | _, _ => (s, ["bad-op call sub"])
+  | ["call", tag, "subhuge", n, len] =>
+    match n.toNat?, len.toNat? with
+    | some n, some len =>
+      let (s, r) := s.subscribe tag (List.replicate n (List.replicate len 97)) 2
+      let (s, res) := callDone s tag r
+      done s res
+    | _, _ => (s, ["bad-op call subhuge"])
+  | ["call", tag, "unsubhuge", n, len] =>
+    match n.toNat?, len.toNat? with
+    | some n, some len =>
+      let (s, r) := s.unsubscribe tag (List.replicate n (List.replicate len 97))
+      let (s, res) := callDone s tag r
+      done s res
+    | _, _ => (s, ["bad-op call unsubhuge"])
   | ["call", tag, "unsub", fs] =>
     match parseFilters fs with
     | some fs =>
